@@ -234,6 +234,18 @@ def replay_dup_{skel}({", ".join(p.split(":")[0] for p in ps)}):
     return replay_dup_binding({skel!r}, {names}, {values})
 ''')
     out.append('''
+def nlres_all(shape: int, first: int, lead: bool) -> bool:
+    """
+    pre: 0 <= shape < len(NL_SHAPES) and 0 <= first < len(NL_FIRST)
+    post: _
+    """
+    return nl_result_ok(shape, first, lead)
+
+
+def replay_nlres_all(shape, first, lead):
+    return replay_nl_result(shape, first, lead)
+''')
+    out.append('''
 def autonewline(t: str) -> bool:
     """
     pre: len(t) <= 3
@@ -640,6 +652,7 @@ def run(rep: C.Report) -> None:
                 "^bind_": dict(name="Ob7 an argument passed as name=value is found by {{{name}}}: the expander's key and the reference's key agree", functions=["core.py:Wtp.expand argument loop (AST slice)", "core.py:Wtp.expand.expand_args (AST slice)"], bounds=f"names of 1..{2 if quick else 3} symbolic chars over {{0,1,a,space}}"),
                 "^param_": dict(name="Ob2 parameter references: trimmed name, positional numerals, default, literal when undefined", functions=["core.py:Wtp.expand.expand_args (AST slice)"], bounds=f"names of 1..{3 if quick else 4} symbolic chars over {{space,1,2,a,b,newline}}, with/without default, fixed argument map"),
                 "^fn_|^sw_": dict(name="Ob3 #if / #ifeq / #switch follow the ParserFunctions rules", functions=["parserfns.py:if_fn", "parserfns.py:ifeq_fn", "parserfns.py:switch_fn"], bounds=f"#if/#ifeq: 0..4 arguments <= 2 symbolic chars, with the identity expander and with an expander whose results are padded with blanks; #switch: every case skeleton of 1..{2 if quick else 3} items over {{k=v, fall-through, #default=v, #default}} with symbolic keys and value, plus {'the 3-item skeletons that start with a fall-through case and three 4-item groups' if quick else 'four longer fall-through groups'}"),
+                "^nlres_": dict(name="Ob4b the automatic newline is decided on the RESULT of each expansion (after parameter substitution, defaults, nested calls, template_fn)", functions=["core.py:Wtp.expand.expand_recurse (template branch)", "common.py:add_newline_to_expansion"], bounds="6 ways a marker reaches the start of an expansion (positional parameter, default value, nested call, literal body, named parameter, template_fn) x first characters {*, #, :, ;, a, blank+*} (and {| for the literal body and template_fn) x with/without preceding text (symbolic indices: solver-driven case split, expand() untraced)"),
                 "^autonewline": dict(name="Ob4 automatic newline before list/table markers", functions=["common.py:add_newline_to_expansion"], bounds="t <= 3 symbolic chars (full Unicode)"),
             },
             timeout=180 if quick else 400,
